@@ -2223,7 +2223,11 @@ class OrderedNamespaceSet(NamespaceSet[_NSO], MutableSequence[_NSO], Generic[_NS
             self._order[s] = o
         else:
             deleted_items = self._order[s]
-            new_items = itertools.islice(o, len(deleted_items))
+            # Materialize the iterable: it is iterated once for adding the items and once more by the list assignment
+            new_items = list(o)
+            if s.step not in (None, 1) and len(new_items) != len(deleted_items):
+                raise ValueError(f"attempt to assign sequence of size {len(new_items)} "
+                                 f"to extended slice of size {len(deleted_items)}")
             successful_new_items = []
             try:
                 for i in new_items:
